@@ -17,6 +17,7 @@ import (
 	"context"
 	"fmt"
 	"os"
+	"sort"
 	"strings"
 	"sync"
 	"sync/atomic"
@@ -142,12 +143,16 @@ func (w *world) close() {
 }
 
 func newWorld(v e2eb.Version, name string, scripts [][]e2eb.Behaviour, try []int, connTimeoutMs int) *world {
+	return newWorldSync(v, name, scripts, try, connTimeoutMs, nil)
+}
+
+func newWorldSync(v e2eb.Version, name string, scripts [][]e2eb.Behaviour, try []int, connTimeoutMs int, sink *e2eb.SyncSink) *world {
 	w := &world{name: name, scripts: scripts}
 	var tryNames []string
 	for _, t := range try {
 		tryNames = append(tryNames, fmt.Sprintf("s%d", t))
 	}
-	px, err := e2eb.StartProxy(e2eb.ProxyOpts{ClientThreshold: 256, Try: tryNames, ConnectionTimeoutMs: connTimeoutMs})
+	px, err := e2eb.StartProxy(e2eb.ProxyOpts{ClientThreshold: 256, Try: tryNames, ConnectionTimeoutMs: connTimeoutMs, Sync: sink})
 	if err != nil {
 		w.setupErr = err.Error()
 		return w
@@ -608,6 +613,9 @@ type call struct {
 }
 
 type conCase struct {
+	forced  int // > 0: number of requests of a forced burst (all held at newServerConnection until all arrived)
+	arrived int
+	atts    [][2]int64
 	fam     string
 	v       e2eb.Version
 	targets []int
@@ -627,6 +635,15 @@ func genCon(r *lib.Rng, i int) *conCase {
 	if r.Chance(1, 4) {
 		k = 3
 	}
+	if i%5 == 4 { // forced burst: 4-16 requests to other servers, released together at newServerConnection
+		k = []int{4, 6, 8, 12, 16}[r.Intn(5)]
+		c.forced = k
+		c.fam, c.v = "Switch.FamA", []e2eb.Version{famA, famA2, famA3}[r.Intn(3)]
+		for j := 0; j < k; j++ {
+			c.targets = append(c.targets, 1+r.Intn(2))
+		}
+		return c
+	}
 	for j := 0; j < k; j++ {
 		c.targets = append(c.targets, r.Intn(3)) // 0 is the current server: AlreadyConnected
 	}
@@ -635,7 +652,11 @@ func genCon(r *lib.Rng, i int) *conCase {
 
 func runCon(c *conCase, idx int) {
 	scripts := [][]e2eb.Behaviour{nil, nil, nil}
-	w := newWorld(c.v, fmt.Sprintf("R%d", idx), scripts, []int{0}, 0)
+	var sink *e2eb.SyncSink
+	if c.forced > 0 {
+		sink = e2eb.NewSyncSink()
+	}
+	w := newWorldSync(c.v, fmt.Sprintf("R%d", idx), scripts, []int{0}, 0, sink)
 	defer w.close()
 	if w.setupErr != "" {
 		c.err = w.setupErr
@@ -660,8 +681,14 @@ func runCon(c *conCase, idx int) {
 			c.calls[j] = call{t: t, res: res, inv: inv, ret: clock.Add(1)}
 		}(j, t)
 	}
+	if sink != nil {
+		sink.Arm(c.forced, 1500*time.Millisecond)
+	}
 	close(start)
 	wg.Wait()
+	if sink != nil {
+		c.arrived = sink.Disarm()
+	}
 	c.final = w.settle(8 * time.Second)
 	c.final.res = []string{"Switch.RNone"}
 	// evidence for the description: did two backend connections overlap?
@@ -680,6 +707,7 @@ func runCon(c *conCase, idx int) {
 				b = time.Now().UnixNano()
 			}
 			ivs = append(ivs, iv{bc.AcceptedAt.Load(), b})
+			c.atts = append(c.atts, [2]int64{bc.AcceptedAt.Load(), b})
 		}
 	}
 	for x := 0; x < len(ivs); x++ {
@@ -699,7 +727,7 @@ func main() {
 	rng := lib.NewRng(f.Seed)
 	out := lib.NewOut("C16", f)
 	out.Imports = "From Verif Require Import Model.Switch.\n"
-	out.Rule = "sequential histories: client family alternates pre-1.20.2 (1.20.1, 1.12.2, 1.16.5) / 1.20.2+ (1.21.4, sometimes 1.20.4); 3 scripted backends (per accepted connection: accept 58%, refuse 10%, kick in login 10%, kick in configuration 11% (pre-1.20.2 clients only; 1.20.2+ get a play kick instead), kick in play before JoinGame 11%) and in half of the histories a 4th backend that never answers the login; try list = ordered subset of the 3 (rarely with the stalling one); log in, then 4-7 operations drawn from Connect / ConnectWithIndication to a random backend, kick from or loss of the current backend, Connect on a request object created earlier (in a PostLoginEvent subscriber before the first join, or at an earlier point of the history) so that its previousServer snapshot is stale (1 in 5 operations), 1-2 requests issued one after the other while a request to the stalling backend is in flight, requests to the stalling backend (400 ms context; the outer request of a during-operation is cancelled by the harness after the inner ones); observation after each operation = (results, CurrentServer, Players() of every server, open backend connections per server, Active). concurrent histories: player on s0, 2-3 goroutines call Connect at once to random backends (s0 = current), logical-clock stamps + final observation. non-trivial = a sequential history with at least one successful switch and one failed attempt, or a concurrent history in which at least two calls were admitted or one was refused as in-progress; distinct = distinct case term"
+	out.Rule = "sequential histories: client family alternates pre-1.20.2 (1.20.1, 1.12.2, 1.16.5) / 1.20.2+ (1.21.4, sometimes 1.20.4); 3 scripted backends (per accepted connection: accept 58%, refuse 10%, kick in login 10%, kick in configuration 11% (pre-1.20.2 clients only; 1.20.2+ get a play kick instead), kick in play before JoinGame 11%) and in half of the histories a 4th backend that never answers the login; try list = ordered subset of the 3 (rarely with the stalling one); log in, then 4-7 operations drawn from Connect / ConnectWithIndication to a random backend, kick from or loss of the current backend, Connect on a request object created earlier (in a PostLoginEvent subscriber before the first join, or at an earlier point of the history) so that its previousServer snapshot is stale (1 in 5 operations), 1-2 requests issued one after the other while a request to the stalling backend is in flight, requests to the stalling backend (400 ms context; the outer request of a during-operation is cancelled by the harness after the inner ones); observation after each operation = (results, CurrentServer, Players() of every server, open backend connections per server, Active). concurrent histories: player on s0, 2-3 goroutines call Connect at once to random backends (s0 = current), logical-clock stamps + final observation; every 5th burst is forced: 4-16 requests of a pre-1.20.2 client to other servers, each held (by a discarding logr sink, no change of gate code or decisions) at newServerConnection - after its checks, before it takes the in-flight slot - until all arrived or 1.5 s passed, then released together; the backends' accept/JoinGame stamps of every dialled connection travel with the case. non-trivial = a sequential history with at least one successful switch and one failed attempt, or a concurrent history in which at least two calls were admitted or one was refused as in-progress; distinct = distinct case term"
 	nSeq := f.Count(44)
 	nCon := f.Count(20)
 	seqs := make([]*seqCase, nSeq)
@@ -808,7 +836,17 @@ func emitCon(out *lib.Out, i int, c *conCase) {
 	calls := lib.ListOf(c.calls, func(k call) string {
 		return lib.App("Check.C16.mkReq", lib.Nat(k.t), k.res, lib.Z(k.inv), lib.Z(k.ret))
 	})
-	term := lib.App("Check.C16.Con", c.fam, calls, c.final.coq())
+	// rank-transform the backend clocks' stamps
+	var stamps []int64
+	for _, a := range c.atts {
+		stamps = append(stamps, a[0], a[1])
+	}
+	sort.Slice(stamps, func(x, y int) bool { return stamps[x] < stamps[y] })
+	rank := func(v int64) int64 {
+		return int64(sort.Search(len(stamps), func(k int) bool { return stamps[k] >= v }))
+	}
+	atts := lib.ListOf(c.atts, func(a [2]int64) string { return lib.Pair(lib.Z(rank(a[0])), lib.Z(rank(a[1]))) })
+	term := lib.App("Check.C16.Con", c.fam, calls, atts, c.final.coq())
 	admitted, refused := 0, 0
 	var cd []string
 	for _, k := range c.calls {
@@ -822,6 +860,10 @@ func emitCon(out *lib.Out, i int, c *conCase) {
 		}
 		out.Tag("concurrent-result:" + strings.TrimPrefix(k.res, "Switch."))
 	}
-	desc := map[string]any{"kind": "concurrent", "history": i, "client": c.v.Name, "calls": cd, "final": c.final.String(), "backend_connections_overlapped": c.overlap}
-	out.Add(term, desc, admitted >= 2 || refused >= 1, "kind=concurrent", "client="+c.v.Name, fmt.Sprintf("admitted=%d", admitted))
+	kind := "concurrent"
+	if c.forced > 0 {
+		kind = "concurrent-forced"
+	}
+	desc := map[string]any{"kind": kind, "requests": len(c.targets), "held_at_newServerConnection": c.arrived, "backend_connections_dialled": len(c.atts), "history": i, "client": c.v.Name, "calls": cd, "final": c.final.String(), "backend_connections_overlapped": c.overlap}
+	out.Add(term, desc, admitted >= 2 || refused >= 1, "kind="+kind, "client="+c.v.Name, fmt.Sprintf("admitted=%d", admitted))
 }
